@@ -157,6 +157,7 @@ def safe_callable_names(root: ast.Module) -> Collection[str]:
     """
     defined_names = {node.id for node in core.walk(root, ast.Name(ctx=ast.Store))}
     function_defs = list(core.walk(root, (ast.FunctionDef, ast.AsyncFunctionDef)))
+    all_function_defs = list(function_defs)
     safe_callables = set(constants.SAFE_CALLABLES)
     safe_callable_nodes = set()
     changes = True
@@ -178,10 +179,16 @@ def safe_callable_names(root: ast.Module) -> Collection[str]:
                 for child in itertools.chain(nonreturn_children, return_children)
             ):
                 safe_callable_nodes.add(node)
-                safe_callables.add(node.name)
                 changes = True
+                # A name may be defined several times: it is safe to call only if every definition is
+                if all(
+                    other in safe_callable_nodes
+                    for other in all_function_defs
+                    if other.name == node.name
+                ):
+                    safe_callables.add(node.name)
 
-        function_defs = [node for node in function_defs if node.name not in safe_callables]
+        function_defs = [node for node in function_defs if node not in safe_callable_nodes]
 
     for node in core.walk(root, ast.ClassDef):
         constructors = {
